@@ -319,6 +319,18 @@ func (x *Exec) applyIfaceContract(st *State, site ssa.Instruction, c *ssa.CallCo
 	x.nscope++
 	x.callScope = fmt.Sprintf("#cs%d", x.nscope)
 	env := x.callEnv(st, st, nil, names, tys, all)
+	// a function-valued field called as x.f(...): `self` is the object x
+	var selfB *specBinding
+	if !c.IsInvoke() {
+		if u, ok := c.Value.(*ssa.UnOp); ok {
+			if fa, ok := u.X.(*ssa.FieldAddr); ok {
+				if bv, ok := st.regs[fa.X]; ok && bv.T != nil {
+					selfB = &specBinding{Val{T: bv.T}, fa.X.Type()}
+					env.binds["self"] = *selfB
+				}
+			}
+		}
+	}
 	for _, p := range x.P.Pkgs {
 		if p.PkgPath == ct.Pkg {
 			env.pkg = p.Types
@@ -349,6 +361,9 @@ func (x *Exec) applyIfaceContract(st *State, site ssa.Instruction, c *ssa.CallCo
 	x.setResult(st, res, rv)
 	env2 := x.callEnv(st, old, nil, names, tys, all)
 	env2.pkg = env.pkg
+	if selfB != nil {
+		env2.binds["self"] = *selfB
+	}
 	var results []Val
 	if rv.Tup != nil {
 		results = rv.Tup
@@ -413,7 +428,7 @@ func (x *Exec) havocDeclared(st *State, pre *State, callee *ssa.Function, ct *Co
 				continue
 			}
 		}
-		if e.Kind == "call" && len(e.Args) == 1 && (e.Name == "sent" || e.Name == "closed" || e.Name == "recvd" || e.Name == "written") {
+		if e.Kind == "call" && len(e.Args) == 1 && (e.Name == "sent" || e.Name == "closed" || e.Name == "recvd" || e.Name == "written" || e.Name == "cancelled") {
 			pe := *env
 			pe.st = pre
 			ch := pe.eval(e.Args[0])
@@ -422,6 +437,11 @@ func (x *Exec) havocDeclared(st *State, pre *State, callee *ssa.Function, ct *Co
 				continue
 			}
 			switch e.Name {
+			case "cancelled":
+				arr := st.heapArr(ghCancelled, heapSorts[ghCancelled])
+				nv := x.freshVar("cancelled", SBool)
+				st.add(Implies(Select(arr, ch.T), nv)) // cancellation is permanent
+				st.heap[ghCancelled] = Store(arr, ch.T, nv)
 			case "written":
 				nv := x.freshVar("written", SStr)
 				x.strFacts(st, nv)
@@ -734,7 +754,7 @@ func (x *Exec) checkFrame(st *State, r *ssa.Return) {
 				}
 			}
 		}
-		if e.Kind == "call" && len(e.Args) == 1 && (e.Name == "sent" || e.Name == "closed" || e.Name == "recvd" || e.Name == "written") {
+		if e.Kind == "call" && len(e.Args) == 1 && (e.Name == "sent" || e.Name == "closed" || e.Name == "recvd" || e.Name == "written" || e.Name == "cancelled") {
 			env := &Env{x: x, st: x.entry, old: x.entry, fn: x.fn, binds: map[string]specBinding{}, cells: true, mode: "pre", pkg: fnPkg(x.fn)}
 			for n, v := range x.params {
 				env.binds[n] = specBinding{v, x.paramType(n)}
